@@ -117,7 +117,14 @@ func race(file string, timeoutS, seed int, waitAll bool) []SolverRun {
 // times the limit and another seed.
 func Discharge(file string, timeoutS int, seed int, retry bool, all bool) []SolverRun {
 	if all {
-		return race(file, timeoutS, seed, true)
+		runs := race(file, timeoutS, seed, true)
+		for _, r := range runs {
+			if r.Result == "unsat" || r.Result == "sat" {
+				return runs
+			}
+		}
+		// nobody decided within the limit: one long attempt (first answer wins) before the obligation is reported
+		return append(runs, race(file, timeoutS*5, seed+104729, false)...)
 	}
 	quick := 2
 	if timeoutS < quick {
@@ -136,7 +143,19 @@ func Discharge(file string, timeoutS int, seed int, retry bool, all bool) []Solv
 		}
 	}
 	if retry {
-		runs = append(runs, race(file, timeoutS*3, seed+7919, false)...)
+		rs = race(file, timeoutS*3, seed+7919, false)
+		runs = append(runs, rs...)
+		// Still undecided and nobody produced a model: the machine may simply be busy (other checks running beside this
+		// one). One last, long attempt before the obligation is reported -- a time-out must not become an alarm.
+		decided := false
+		for _, r := range runs {
+			if r.Result == "unsat" || r.Result == "sat" {
+				decided = true
+			}
+		}
+		if !decided {
+			runs = append(runs, race(file, timeoutS*15, seed+104729, false)...)
+		}
 	}
 	return runs
 }
